@@ -51,6 +51,34 @@ fn check(arg: &str, bytes: &[u8]) -> Option<String> {
                 }
             }
         }
+        // "big:<n>": a model with n dictionary records (and as many character n-grams): whatever to_vec / write produce
+        // is read back, from a slice and from a reader, however large the model is
+        "big" => {
+            let r = catch_unwind(move || -> Option<String> {
+                let mut md = crate::gen::ModelData::from_bytes(&model_bytes())?;
+                md.dict_model.0 = (0..n).map(|i| crate::gen::WordWeightRecord { word: format!("w{:07}", i), weights: vec![(i % 97) as i32 - 48; 9], comment: String::new() }).collect();
+                md.char_ngram_model.0 = (0..n).map(|i| crate::gen::NgramData { ngram: format!("{:06}", i), weights: vec![(i % 89) as i32 - 44; 3] }).collect();
+                let big = md.to_bytes();
+                let mut input = big.clone();
+                input.extend_from_slice(b"tail");
+                match Model::read_slice(&input) {
+                    Err(e) => return Some(format!("a well-formed model with {} dictionary records and n-grams ({} bytes) is rejected by read_slice: {}", n, big.len(), e)),
+                    Ok((m, rest)) => {
+                        if rest != b"tail" { return Some("remainder is not exactly the trailing bytes (large model)".into()); }
+                        if m.to_vec().ok().as_deref() != Some(&big[..]) { return Some("re-serialised large model differs from the original bytes".into()); }
+                    }
+                }
+                match Model::read(&big[..]) {
+                    Err(e) => Some(format!("a well-formed model with {} dictionary records and n-grams is rejected by Model::read: {}", n, e)),
+                    Ok(m) => if m.to_vec().ok().as_deref() != Some(&big[..]) { Some("Model::read of a large model does not reproduce its bytes".into()) } else { None },
+                }
+            });
+            match r {
+                Err(_) => Some(desc(arg, "panic while reading a large model")),
+                Ok(Some(w)) => Some(desc(arg, &w)),
+                Ok(None) => None,
+            }
+        }
         // Model::read through readers with awkward behaviour: "chunk:<k>" = at most k bytes per read call;
         // "fail:<k>" = I/O error after k bytes; "cut:<k>" = stream ends after k bytes
         "chunk" => {
@@ -127,6 +155,11 @@ pub fn search() -> Option<String> {
     }
     for k in [0usize, 1, 7, 300] {
         if let Some(d) = check(&format!("trail:{k}"), &bytes) {
+            return Some(d);
+        }
+    }
+    for k in [2000usize, if crate::thorough() { 1_500_000 } else { 300_000 }] {
+        if let Some(d) = check(&format!("big:{k}"), &bytes) {
             return Some(d);
         }
     }
